@@ -98,7 +98,7 @@ PROPS["C16"] = {
     "claim": {
         "text": "Theorems (Properties/C16.v) on the proto model, for every supported type, well-formed value and flag word: encode writes exactly size_of bytes into any buffer of at least that length "
                 "(the bytes are independent of the buffer, the rest of the buffer is unchanged) and returns io.ErrShortBuffer without panic and without growing the buffer for every shorter length; "
-                "hence MarshalTo/Marshal/Size agree. Every slice expression of the Go encoder is bound-checked in the model (Panic), so the theorem includes panic-freedom.",
+                "hence MarshalTo/Marshal/Size agree. Caller-side corollaries (Proto/EncCorollaries.v): a buffer of exactly Size(v) bytes becomes Marshal(v) (marshal_to_exact_fit); for any two sufficiently long buffers the same Size(v) bytes are written and each keeps its own tail (marshal_to_oblivious); the returned buffer always has the length of the one passed in (marshal_to_keeps_length); MarshalTo succeeds if and only if Size(v) <= len(b) (marshal_to_threshold). Every slice expression of the Go encoder is bound-checked in the model (Panic), so the theorem includes panic-freedom.",
         "note": "Trusted: Coq kernel, translator (wire primitives), the hand-written model of the reflection-driven codecs tied by correspondence on random types x every buffer length, extraction+driver, harness. Writes beyond len(b) inside cap(b) are excluded by construction of the model (windows are exact) and observed by guard bytes.",
     },
 }
